@@ -40,7 +40,6 @@ func init() { commands["C20"] = c20_runC20 }
 
 const (
 	c20_fAdjacent  = "C20-adjacent-comments"
-	c20_fMultiline = "C20-multiline-span-render-panic"
 	c20_fEOFLine   = "C20-eof-quotes-previous-line"
 	c20_fNoPos     = "C20-compile-error-without-position"
 	c20_fSlashBody = "C20-block-comment-body-starting-with-slash"
@@ -1065,16 +1064,31 @@ func c20Diag(e *Env, src string, label string, spec bool, agreeLex bool) {
 	rep := e.O.Ask("C20", "diag", Hex(src), fmt.Sprint(sp.Char), fmt.Sprint(ep.Char), eof)
 	f := strings.Split(rep, "\t")
 	goRow := fmt.Sprintf("%s\t%d\t%d\t%d\t%v", Hex(w.SourceCode), sp.Line, sp.Column, ep.Column, friendlyPanic == "")
-	implOK := len(f) == 7 && strings.Join(f[:5], "\t") == goRow
+	// the caret line of the real message ("pad:carets"; "P" when the call panicked) against the
+	// two Repeat counts of the model
+	if sp.Line != ep.Line {
+		e.R.H("diag_span", "leaves its line (carets run to the end of the quoted line)")
+	} else {
+		e.R.H("diag_span", "within one line")
+	}
+	goCarets := "P"
+	if friendlyPanic == "" {
+		goCarets = c03_friendlyCarets(friendly)
+	}
+	goRow += "\t" + goCarets
+	implOK := len(f) == 8 && strings.Join(f[:5], "\t")+"\t"+f[7] == goRow
 	if !implOK {
 		e.R.H("diag_corr", "MISMATCH")
-		e.R.Mismatch(fmt.Sprintf("diag %q start=%d end=%d eof=%s", src, sp.Char, ep.Char, eof), goRow, rep, "quoted line, line, column, end column, FriendlyErrorMessage returns: real parser error vs Lean getLineText/posAt/renderOk")
+		e.R.Mismatch(fmt.Sprintf("diag %q start=%d end=%d eof=%s", src, sp.Char, ep.Char, eof), goRow, rep, "quoted line, line, column, end column, FriendlyErrorMessage returns, blanks:carets of its last line: real parser error vs Lean getLineText/posAt/renderOk/padCount/caretCount")
 	} else {
 		e.R.H("diag_corr", "agree")
 	}
 	if !spec {
 		if friendlyPanic != "" {
+			// since the repair of C20-multiline-span-render-panic no span may make the
+			// rendering panic (Lean: render_total): an unlisted violation on every stream
 			e.R.H("soup_render", "panics (model agrees: "+fmt.Sprint(implOK)+")")
+			e.R.Spec(src, "FriendlyErrorMessage panics: "+friendlyPanic+" | error: "+w.Msg+" | "+label, "")
 		}
 		return
 	}
@@ -1103,14 +1117,11 @@ func c20Diag(e *Env, src string, label string, spec bool, agreeLex bool) {
 	e.R.H("diag_verdict", "VIOLATION")
 	finding := ""
 	if implOK && agreeLex {
-		onlyPanic := friendlyPanic != "" && len(bad) == 1
 		onlyQuote := friendlyPanic == "" && len(bad) == 1 && strings.HasPrefix(bad[0], "quoted text")
 		onlyCol := friendlyPanic == "" && len(bad) == 1 && strings.HasPrefix(bad[0], "column ")
 		switch {
 		case onlyCol && sp.Char == nRunes+1 && f[5] == "false":
 			finding = c20_fEOF2
-		case onlyPanic && f[6] == "false" && f[4] == "false":
-			finding = c20_fMultiline
 		case onlyQuote && eof == "1" && nRunes > 0 && []rune(src)[nRunes-1] == '\n' && f[5] == "false":
 			finding = c20_fEOFLine
 		}
@@ -1253,7 +1264,10 @@ func c20Directed(e *Env) {
 		}
 		e.R.Spec(slash, fmt.Sprintf("a block comment whose body begins with `/`: `1 + 2` parses to %q but the variant gives %v", a.AST, b2.PErr), f)
 	}
-	for _, s := range []string{"x := `abc\ndef` 1", "f(1\n", "x := 1 | (2 | 3)", "x := 1\n("} {
+	// the first two: spans that leave their line (a backtick string with a newline; a token
+	// whose recorded start is the start of a two-line block comment) — they made
+	// FriendlyErrorMessage panic before the repair of C20-multiline-span-render-panic
+	for _, s := range []string{"x := `abc\ndef` 1", "       /* a\n */ )", "f(1\n", "x := 1 | (2 | 3)", "x := 1\n("} {
 		ag := c20LexCheck(e, []string{s}, "directed")
 		e.R.Case(s, false)
 		c20Diag(e, s, "directed", true, ag[0])
